@@ -115,7 +115,10 @@ def gen_hull(rng):
             pts += [[-5.0 + i, -5.5] for i in range(6)]
         if kind == "dup":
             pts += [list(p) for p in pts[:3]]
-    return {"k": "c15.hull", "pts": pts, "radius": rng.choice([0.5, 2.0, 8.0, 50.0]), "pivot_ccw": rng.random() < 0.5, "kind": kind, "timeout_ms": 5000}
+    # the whole configuration at different scales (ball radii from 0.01 to 1000): nothing in the clause depends on the unit
+    sc = rng.choice([0.02, 0.1, 1.0, 1.0, 20.0])
+    pts = [[x * sc, y * sc] for x, y in pts]
+    return {"k": "c15.hull", "pts": pts, "radius": rng.choice([0.5, 2.0, 8.0, 50.0]) * sc, "pivot_ccw": rng.random() < 0.5, "kind": kind, "timeout_ms": 5000}
 
 
 def corpus():
